@@ -1,6 +1,11 @@
 #!/bin/sh
 # Offline setup: make Hypothesis importable in /venv (it normally already is).
 set -e
+HERE=$(cd "$(dirname "$0")" && pwd)
 /venv/bin/python -c "import hypothesis" 2>/dev/null || \
   /venv/bin/pip install --no-index --find-links /opt/veriftools/wheels hypothesis
 /venv/bin/python -c "import pest, regex, hypothesis; print('setup ok', hypothesis.__version__)"
+# optional engine for the thorough tier of C11 (skipped and counted there if unavailable)
+/venv/bin/python -c "import sys; sys.path.insert(0, '$HERE/.deps'); import atheris" 2>/dev/null || \
+  /venv/bin/pip install -q --no-index --find-links /opt/veriftools/wheels --target "$HERE/.deps" atheris 2>/dev/null || \
+  echo "atheris not installed (optional)"
